@@ -2,13 +2,11 @@ package rules
 
 import (
 	"fmt"
-	"go/ast"
 	"go/constant"
 	"go/token"
 	"go/types"
 	"gofasta-verif/eval"
 	"sort"
-	"strings"
 
 	"golang.org/x/tools/go/ssa"
 
@@ -539,7 +537,7 @@ func c18WidthGuardsEvaluated(c *core.Ctx) {
 					args = append(args, eval.Opaque{Why: sig.Params().At(i).Name()})
 				}
 			}
-			if _, err := ev.CallFunc(fn, args...); err != nil {
+			if _, err := ev.CallFuncBound(fn, args...); err != nil {
 				c.Und(key, fn.Pos(), "[%s] cannot evaluate: %v", tc.label, err)
 				bad = nil
 				break
@@ -561,104 +559,6 @@ func isLenCall(v ssa.Value) bool {
 	return ok && b.Name() == "len"
 }
 
-// c18SuffixSwitches: every switch over a file-type string must refuse unknown values.
-func c18SuffixSwitches(c *core.Ctx) {
-	known := map[string]bool{`".gb"`: true, `".gff"`: true, `"gb"`: true, `"gff"`: true, `".csv"`: true, `".fasta"`: true, `".fa"`: true}
-	n := 0
-	check := func(pkgKey string, onlyFunc string) {
-		p := c.Pkgs[pkgKey]
-		if p == nil {
-			return
-		}
-		for _, file := range p.Syntax {
-			fname := c.Fset.Position(file.Pos()).Filename
-			if strings.HasSuffix(fname, "indels.go") {
-				continue
-			}
-			for _, d := range file.Decls {
-				var body *ast.BlockStmt
-				name := ""
-				switch x := d.(type) {
-				case *ast.FuncDecl:
-					body, name = x.Body, x.Name.Name
-				case *ast.GenDecl:
-					// cobra commands: RunE closures inside var declarations
-					ast.Inspect(x, func(nd ast.Node) bool {
-						if fl, ok := nd.(*ast.FuncLit); ok {
-							n += checkSuffixSwitchesIn(c, p.TypesInfo, fl.Body, pkgKey+"/"+baseName(fname), known)
-							return false
-						}
-						return true
-					})
-				}
-				if body == nil || (onlyFunc != "" && name != onlyFunc) {
-					continue
-				}
-				n += checkSuffixSwitchesIn(c, p.TypesInfo, body, pkgKey+"/"+name, known)
-			}
-		}
-	}
-	check("cmd", "")
-	check("pkg/variants", "Variants")
-	c.Floor("T/suffix-switch", n, 3)
-}
-
-func baseName(p string) string {
-	if i := strings.LastIndex(p, "/"); i >= 0 {
-		return p[i+1:]
-	}
-	return p
-}
-
-func checkSuffixSwitchesIn(c *core.Ctx, info *types.Info, body *ast.BlockStmt, where string, known map[string]bool) int {
-	n := 0
-	k := 0
-	ast.Inspect(body, func(nd ast.Node) bool {
-		sw, ok := nd.(*ast.SwitchStmt)
-		if !ok || sw.Tag == nil {
-			return true
-		}
-		isSuffix := false
-		var deflt *ast.CaseClause
-		for _, cl := range sw.Body.List {
-			cc := cl.(*ast.CaseClause)
-			if cc.List == nil {
-				deflt = cc
-			}
-			for _, e := range cc.List {
-				if tv, ok := info.Types[e]; ok && tv.Value != nil && known[tv.Value.ExactString()] {
-					isSuffix = true
-				}
-			}
-		}
-		if !isSuffix {
-			return true
-		}
-		n++
-		k++
-		ok2 := false
-		if deflt != nil {
-			for _, st := range deflt.Body {
-				if r, ok := st.(*ast.ReturnStmt); ok {
-					for _, res := range r.Results {
-						if tv, ok := info.Types[res]; ok && isErrorType(tv.Type) && !tv.IsNil() {
-							ok2 = true
-						}
-						if call, ok := res.(*ast.CallExpr); ok {
-							if tv, ok := info.Types[call]; ok && isErrorType(tv.Type) {
-								ok2 = true
-							}
-						}
-					}
-				}
-			}
-		}
-		c.Ob(fmt.Sprintf("T/suffix-switch/%s#%d", where, k), ok2, sw.Pos(), "switch over a file type has no default branch returning an error: an unrecognised suffix would be accepted silently")
-		return true
-	})
-	return n
-}
-
 func C18(c *core.Ctx) {
 	c.Explanation("C18: an obligation table derived from the property's list. Uniform rules: (B2) every error returned by a repository function is returned or sent onward by each caller, every error sent on a channel is received by the channel's creator into a return, cmd.Execute exits 1; (B3) in every function that creates an error channel, each blocking select listens on that channel (value returned), and each bare receive is provably safe: no sender of the awaited channel can reach a send on the error channel before delivering. Rows: width/symbol/header/empty checks of the five FASTA readers and both CSV readers (interpreted against a modelled scanner / csv reader), reference-vs-alignment width in the three workers, query-vs-target width guards, single-record --reference guards, window coordinates (checkArgs, exhaustive), unrecognised file-type suffix (default branches), no size/dist option (checkArgs, exhaustive).")
 	p := facts(c)
@@ -676,6 +576,7 @@ func C18(c *core.Ctx) {
 	checkExecuteExits(c, "B2/cmd.Execute")
 	c18SingleReference(c, p)
 	c18WidthGuards(c)
-	c18SuffixSwitches(c)
+	// unrecognised file-type suffixes: decided by interpretation - Engine D (annotation / query / target suffix scenarios of the
+	// commands) and Engine E (variants.Variants with an unknown annotation kind); the former syntactic switch rule is gone
 	c18Evaluated(c)
 }
